@@ -161,8 +161,8 @@ func childMain() {
 	if err != nil || string(nb) != j.Nonce || j.Nonce == "" {
 		childFatal(3, "chroot not in effect (nonce %q, want %q, err %v)", nb, j.Nonce, err)
 	}
-	if fi, err := os.Lstat(destAbs); err != nil || !fi.IsDir() {
-		childFatal(3, "destination missing inside the chroot: %v", err)
+	if fi, err := os.Lstat(path.Dir(destAbs)); err != nil || !fi.IsDir() {
+		childFatal(3, "parent of the destination missing inside the chroot: %v", err)
 	}
 	os.Stdout.WriteString(lineReady + "\n")
 
